@@ -19,6 +19,7 @@ use crate::{
 
 pub mod c01;
 pub mod c02;
+pub mod c04;
 pub mod c08;
 pub mod c09;
 pub mod c20;
